@@ -52,7 +52,7 @@ class DictSub(dict):
     pass
 
 
-STR_POOL = ["", "0", "1", "7", "-3", "1.5", " 4", "1e2", "x", "a", "true", "No", "OFF", "yes ", "inf", "\uff11"]
+STR_POOL = ["", "0", "1", "7", "-3", "1.5", " 1", "1e2", "x", "a", "true", "No", "OFF", "yes ", "inf", "\uff11"]
 FLOAT_POOL = [0.5, 1.0, -2.5, 1e300, float("nan"), float("inf")]
 NESTED_EXOTIC = ["tuple", "strsub", "nonstrkey", "huge"]
 EXOTIC = ["bytes", "tuple", "intsub", "strsub", "dictsub", "nonstrkey", "inf", "nan", "huge", "set", "object"]
@@ -220,6 +220,10 @@ class Gen:
             pool = list(vals)
             if self.budget > 0:
                 pool.append(self.non_member(kind, vals))
+                if self.b.str_pool and kind == "str":
+                    # coercion runs: strings that int() / the boolean table would turn into
+                    # a value hash-equal to another literal (1 == True)
+                    pool += [x for x in ("1", " 1", "0", "true", "No") if x not in vals]
             idx = c.choice(len(pool), "lit")
             if idx >= len(vals):
                 self.budget -= 1
